@@ -78,8 +78,29 @@ def cond(depth: int) -> Any:
 
 
 @st.composite
+def flat_chain(draw: Any) -> Any:
+    """`a and b or c and d ...` without parentheses, as the tree the documented precedence gives
+    (and binds more tightly than or)."""
+    simple = st.one_of(st.sampled_from([TRUE, FALSE, P("flag"), NIL, P("nosuch"), I(0), S("")]), atom())
+    n = draw(st.integers(3, 5))
+    terms = [draw(simple) for _ in range(n)]
+    ops = [draw(st.sampled_from(["and", "or"])) for _ in range(n - 1)]
+    groups: list[list[Any]] = [[terms[0]]]
+    for op, t in zip(ops, terms[1:]):
+        if op == "and":
+            groups[-1].append(t)
+        else:
+            groups.append([t])
+
+    def chain(op: str, xs: list[Any]) -> Any:
+        return xs[0] if len(xs) == 1 else [op, xs[0], chain(op, xs[1:])]
+
+    return chain("or", [chain("and", g) for g in groups])
+
+
+@st.composite
 def focus_cond(draw: Any) -> list[Any]:
-    c = draw(cond(3))
+    c = draw(flat_chain()) if draw(st.integers(0, 9)) < 4 else draw(cond(3))
     k = draw(st.integers(0, 3))
     if k == 0:
         return [IF(c, [T("T")], [T("F")])]
